@@ -73,7 +73,7 @@ Names == <<
   "C17_BindingFunctional", "C17_ListMatchesBinding", "C17_SidPayAddrBound", "C17_KidInjective", "C17_BindingProven", "C17_PayAddrChange",
   "C19_OnlyFishmen", "C19_FaultNamesLiveShard", "C19_NoCollateralEffect", "C19_PenaltyBounded",
   "C20_SuperImpliesRequirements", "C20_PromotionNeedsStatus",
-  "C16_IdsFresh", "C16_OneInFlight", "C16_BaseIsLatest", "C16_HistoryChain" >>
+  "C16_IdsFresh", "C16_OneInFlight", "C16_BaseIsLatest", "C16_HistoryChain", "C16_CommittedOnce", "C16_FirstVersionOnce" >>
 
 V(app, ok) == [app |-> app, ok |-> ~app \/ ok]
 
@@ -150,6 +150,8 @@ Verdict(name, x, g) ==
     [] name = "C16_OneInFlight"          -> V(C16_Update_app(x), C16_OneInFlight(x))
     [] name = "C16_BaseIsLatest"         -> V(C16_Update_app(x), C16_BaseIsLatest(x))
     [] name = "C16_HistoryChain"         -> V(TRUE, C16_HistoryChain(x))
+    [] name = "C16_CommittedOnce"        -> V(TRUE, C16_CommittedOnce(x))
+    [] name = "C16_FirstVersionOnce"     -> V(Kind(x) = "Complete", C16_FirstVersionOnce(x))
 
 
 \* all formulas of the catalogue hold on step x with ghost g
